@@ -74,6 +74,9 @@ pub enum Expr {
     Paren(Box<Expr>),
     /// LEN of a string literal (a built-in function call)
     LenOf(String),
+    /// `(e / DZ%)`: fails with error 11 while the global DZ% is 0, has the value of `e`
+    /// once a handler has set it to 1 (a failing block header that can be repaired)
+    Quot(Box<Expr>),
 }
 
 #[derive(Clone, Debug, PartialEq, Serialize, Deserialize)]
